@@ -65,7 +65,8 @@ impl core::ops::Add<ArrD> for ArrD { type Output = ArrD;
     fn add(self, rhs: ArrD) -> (r: ArrD) ensures r.rows@ == rows_added(self.rows@, rhs.rows@, self.rows@[0].len() as int) { unimplemented!() }
 }
 // comparison of lane bundles (only used to decide whether the Periodic arm returns an error)
-pub uninterp spec fn lanes_ne(a: Seq<T>, b: Seq<T>) -> bool;
+/// ndarray compares element by element with the scalar `==` (IEEE: NaN differs from everything)
+pub open spec fn lanes_ne(a: Seq<T>, b: Seq<T>) -> bool { a.len() != b.len() || exists|j: int| 0 <= j < a.len() && !t_eq(#[trigger] a[j], b[j]) }
 impl PartialEqSpecImpl for Lanes {
     open spec fn obeys_eq_spec() -> bool { false }
     open spec fn eq_spec(&self, other: &Lanes) -> bool { !lanes_ne(self@, other@) }
